@@ -403,8 +403,40 @@ class _Rename(ast.NodeVisitor):
         super().generic_visit(node)
 
 
+class _Deannotate(ast.NodeTransformer):
+    """inside function bodies `x: T = v` is `x = v`: annotations of locals and of attribute targets are never
+    evaluated there (PEP 526), so rules need to know one form of assignment only"""
+
+    def __init__(self):
+        self.depth = 0
+
+    def visit_FunctionDef(self, node):
+        self.depth += 1
+        self.generic_visit(node)
+        self.depth -= 1
+        return node
+
+    visit_AsyncFunctionDef = visit_FunctionDef
+
+    def visit_Lambda(self, node):
+        return node
+
+    def visit_ClassDef(self, node):
+        d, self.depth = self.depth, 0  # a class body is its own scope: annotations there are evaluated and stored
+        self.generic_visit(node)
+        self.depth = d
+        return node
+
+    def visit_AnnAssign(self, node: ast.AnnAssign):
+        if self.depth > 0 and node.value is not None:
+            return ast.copy_location(ast.Assign(targets=[node.target], value=node.value, type_comment=None), node)
+        return node
+
+
 def canonicalise(trees: Dict[str, ast.Module]) -> Dict[str, str]:
     """rename renamed private anchors back (in the trees); returns {canonical name: name used in this tree}"""
+    for t in trees.values():
+        _Deannotate().visit(t)
     mapping: Dict[str, str] = {}
     for canon, (mod, finder) in ROLES.items():
         tree = trees.get(mod)
